@@ -48,6 +48,7 @@ type ClientPlan struct {
 	Reqs     []ReqPlan `json:"reqs"`
 	Pipeline int       `json:"pipeline"` // requests written before the client starts waiting for answers
 	Piece    int       `json:"piece"`    // client write size (segmentation of the request stream)
+	BadTail  bool      `json:"bad_tail,omitempty"` // after its requests the client sends a malformed request immediately followed by a valid one
 }
 
 // HTTPCase is a case of C10.
@@ -133,6 +134,10 @@ func genHTTPServerCase(r *simrt.Rand, tier string) *HTTPCase {
 			rp.SplitCL = !rp.Flush && rp.Resp > 16 && r.Bool(0.25)
 			cp.Reqs = append(cp.Reqs, rp)
 		}
+		// (not behind an exchange that closes the connection: writing into that close only
+		// provokes a reset that destroys the answer still in flight)
+		last := cp.Reqs[len(cp.Reqs)-1]
+		cp.BadTail = r.Bool(0.15) && !closes(last) && last.Proto == "HTTP/1.1"
 		c.Conns = append(c.Conns, cp)
 	}
 	return c
@@ -427,6 +432,8 @@ func runHTTPServer(t *testing.T, c *HTTPCase, trace bool) *common.Outcome {
 		tlsOn = c.TLS
 		eng := newEngine(c.IOMod, c.Mode, c.NPoller, c.Pool, c.MaxBlocking, handler)
 		tlsOn = false
+		reported := map[string]int{} // requests the engine reported (OnRequest hook), by id
+		eng.OnRequest = func(w http.ResponseWriter, r *http.Request) { reported[r.Header.Get("X-Id")]++ }
 		if err := eng.Start(); err != nil {
 			o.Infra = "engine start: " + err.Error()
 			return
@@ -506,6 +513,21 @@ func runHTTPServer(t *testing.T, c *HTTPCase, trace bool) *common.Outcome {
 						simrt.WaitStuck("client-await", 2*time.Second, func() bool { return countResponses(cs.recvd) >= want || cs.eof })
 					}
 				}
+				if last := plan.Reqs[len(plan.Reqs)-1]; plan.BadTail && !closes(last) && last.Proto == "HTTP/1.1" {
+					// C08 end to end: once the parser has reported an error nothing further is
+					// reported for the connection - not even a valid request that arrived in the
+					// same read (over TLS: in the next record of the same read)
+					want := len(plan.Reqs)
+					simrt.WaitStuck("client-await-all", 2*time.Second, func() bool { return countResponses(cs.recvd) >= want || cs.eof })
+					bad := []byte("POST /x HTTP/1.1\r\nHost: sim\r\nContent-Length: 1x\r\n\r\nab")
+					good := []byte(fmt.Sprintf("POST /x HTTP/1.1\r\nHost: sim\r\nX-Id: c%d-after\r\nContent-Length: 0\r\n\r\n", i))
+					if c.TLS {
+						cs.p.write(bad, 0)
+						cs.p.write(good, 0)
+					} else {
+						cs.p.write(append(bad, good...), 0)
+					}
+				}
 			})
 		}
 		simrt.WaitStuck("clients-done", 5*time.Second, func() bool { return done == len(c.Conns) })
@@ -556,6 +578,14 @@ func runHTTPServer(t *testing.T, c *HTTPCase, trace bool) *common.Outcome {
 				if closes(rp) || (resp.ContentLength < 0 && len(resp.TransferEncoding) == 0) {
 					closedExpected = true // the request asked for it, or the body is delimited by the close
 				}
+			}
+			if after := fmt.Sprintf("c%d-after", i); reported[after] > 0 || served[after] > 0 {
+				fail("request-reported-after-parse-error", class, "connection %d: a malformed request (non-numeric Content-Length) was followed by a valid one in the same write; the engine reported the valid one %d times (handler ran %d times) although parsing had failed before it", i, reported[after], served[after])
+				return
+			}
+			if cs.plan.BadTail {
+				// the answer to the malformed request (if any) and the close are not judged here
+				continue
 			}
 			rest, _ := io.ReadAll(br)
 			if len(rest) > 0 {
